@@ -724,6 +724,14 @@ pub struct WriteConn {
     _permit: OwnedSemaphorePermit,
 }
 
+impl WriteConn {
+    /// Close this connection instead of returning it to the pool; the next
+    /// writer gets a freshly opened one.
+    pub fn discard(self) {
+        drop(deadpool::managed::Object::take(self.conn));
+    }
+}
+
 impl Deref for WriteConn {
     type Target = sqlite_pool::Connection<CrConn>;
 
